@@ -264,9 +264,17 @@ def run(seed, tier, driver):
                 p.step({'k': 'chunk', 'c': 0, 'hex': ob.hex()})
                 if not p.sim.enabled({'k': 'chunk', 'c': 0}):
                     continue
+                # the peer's first KEEPALIVE and its next message arrive some time after the previous one (so that a timer
+                # which is not restarted shows): a gap short of every deadline
+                for gap in (2, 1):
+                    if p.sim.enabled({'k': 'advance', 'dt': gap}):
+                        p.step({'k': 'advance', 'dt': gap})
+                        break
                 p.step({'k': 'chunk', 'c': 0, 'hex': SG.KEEPALIVE.hex()})
                 if p.last['state'] != 'ESTABLISHED' or not p.sim.enabled({'k': 'chunk', 'c': 0}):
                     continue
+                if p.sim.enabled({'k': 'advance', 'dt': 1}):
+                    p.step({'k': 'advance', 'dt': 1})
                 o = p.step({'k': 'chunk', 'c': 0, 'hex': fb.hex()})
                 was_update = fb[18] == 2
                 for _ in range(4):
@@ -282,6 +290,8 @@ def run(seed, tier, driver):
                     p.step({'k': 'chunk', 'c': 0, 'hex': SG.KEEPALIVE.hex()})
                 res.stats.case(('script', jdump(conf), ol, fl), sample=None)
                 res.stats.hit('script_' + fl.split('_')[0])
+    two_sessions(driver, res, r, tier)
+    handler_faults(res, r, tier)
     nwalks = 150 if tier == 'quick' else 6000
     for i in range(nwalks):
         conf = r.choice(CONFIGS)
@@ -289,6 +299,125 @@ def run(seed, tier, driver):
         pool = SG.message_pool(full['remote_as'])
         random_walk(conf, driver, res, r, pool, r.choice([20, 40, 80]), r.choice(['session', 'session', 'chaos', 'timers']))
     return res
+
+
+def two_sessions(driver, res, r, tier):
+    """Two consecutive sessions whose peer OPENs differ (with / without capabilities, different hold times), each followed by
+    the AS-width probes and an ordinary UPDATE: what the first session negotiated or received must not show in the second
+    (C05), in either order.  Lockstep with the model; the oracles are the Monitor's."""
+    for conf in CONFIGS:
+        full = dict(S.DEFAULT_CFG); full.update(conf)
+        pool = dict(SG.message_pool(full['remote_as']))
+        opens = ['open_ok', 'open_nocaps', 'open_hold3', 'open_hold0']
+        probes = ['update_aspath4', 'update_aspath2', 'update_ok']
+        pairs = [(a, b) for a in opens for b in opens if a != b]
+        if tier == 'quick':
+            pairs = [('open_ok', 'open_nocaps'), ('open_nocaps', 'open_ok'), ('open_ok', 'open_hold3')] + r.sample(pairs, 2)
+        for a, b in pairs:
+            p = Pair(conf, driver, res)
+            p.step({'k': 'boot'})
+            cid = 0
+            for which in (a, b):
+                if not p.sim.enabled({'k': 'connok', 'c': cid}):
+                    break
+                p.step({'k': 'connok', 'c': cid})
+                p.step({'k': 'chunk', 'c': cid, 'hex': pool[which].hex()})
+                if not p.sim.enabled({'k': 'chunk', 'c': cid}):
+                    break
+                p.step({'k': 'chunk', 'c': cid, 'hex': SG.KEEPALIVE.hex()})
+                for pr in probes:
+                    if p.last['state'] == 'ESTABLISHED' and p.sim.enabled({'k': 'chunk', 'c': cid}):
+                        p.step({'k': 'chunk', 'c': cid, 'hex': pool[pr].hex()})
+                if not p.sim.enabled({'k': 'lost', 'c': cid}):
+                    break
+                p.step({'k': 'lost', 'c': cid})
+                # wait for the idle-hold timer (firing whatever else becomes due on the way), then the next attempt is pending
+                for _ in range(12):
+                    w = p.sim.world
+                    if any(c.state == 'connecting' for c in w.connectors):
+                        break
+                    due = [S.TIMER_NAMES.get(getattr(c.func, '__name__', None)) for c in w.due()]
+                    due = [d for d in due if d]
+                    if due:
+                        p.step({'k': 'fire', 't': due[0]})
+                        continue
+                    times = [c.time for c in w.calls if c.time > w.now]
+                    if not times:
+                        break
+                    p.step({'k': 'advance', 'dt': min(times) - w.now})
+                cid = len(p.sim.world.connectors) - 1
+            res.stats.case(('two-sessions', jdump(conf), a, b), sample=None)
+            res.stats.hit('two_sessions')
+
+
+class _Boom(Exception):
+    pass
+
+
+def handler_faults(res, r, tier):
+    """C18 only, implementation only: the application handler raises inside one of its callbacks (a collector that is down,
+    a full disk ...).  yabgp catches that; whatever it then does with the session, the counters must still equal what was
+    written to / received from the connection.  (The model has no faulty handler, so there is no lockstep here and no other
+    property is judged on these runs.)"""
+    conf = CONFIGS[0]
+    full = dict(S.DEFAULT_CFG); full.update(conf)
+    pool = dict(SG.message_pool(full['remote_as']))
+    script = [('connok', None), ('chunk', 'open_ok'), ('chunk', 'keepalive'), ('chunk', 'update_ok'), ('chunk', 'update_bad_origin'),
+              ('chunk', 'rr'), ('chunk', 'keepalive'), ('chunk', 'notif_cease')]
+    methods = ['send_open', 'open_received', 'keepalive_received', 'update_received', 'on_update_error', 'route_refresh_received',
+               'notification_received', 'on_established', 'on_connection_lost']
+    for meth in methods:
+        for nth in (1, 2):
+            sim = S.Sim(conf)
+            h = sim.handler
+            if not hasattr(h, meth):
+                res.stats.hit('handler_fault_skipped')
+                continue
+            orig = getattr(h, meth)
+            count = {'n': 0}
+
+            def faulty(*a, _orig=orig, _count=count, **kw):
+                _count['n'] += 1
+                if _count['n'] == nth:
+                    raise _Boom('handler down')
+                return _orig(*a, **kw)
+            setattr(h, meth, faulty)
+            mon = Monitor(res, conf, full)
+            mon.only = {'C18'}
+            trace = []
+
+            def do(ev):
+                if not sim.enabled(ev):
+                    return False
+                o = sim.step(ev)
+                trace.append(ev)
+                mon.step(ev, o, sim)
+                return True
+            do({'k': 'boot'})
+            for rounds in range(2):
+                cid = len(sim.world.connectors) - 1
+                for kind, label in script:
+                    if kind == 'connok':
+                        do({'k': 'connok', 'c': cid})
+                    else:
+                        do({'k': 'chunk', 'c': cid, 'hex': pool[label].hex()})
+                if sim.enabled({'k': 'lost', 'c': cid}):
+                    do({'k': 'lost', 'c': cid})
+                for _ in range(10):
+                    w = sim.world
+                    if any(c.state == 'connecting' for c in w.connectors):
+                        break
+                    due = [S.TIMER_NAMES.get(getattr(c.func, '__name__', None)) for c in w.due()]
+                    due = [d for d in due if d]
+                    if due:
+                        do({'k': 'fire', 't': due[0]})
+                        continue
+                    times = [c.time for c in w.calls if c.time > w.now]
+                    if not times:
+                        break
+                    do({'k': 'advance', 'dt': min(times) - w.now})
+            res.stats.case(('handler-fault', meth, nth), sample={'handler_fault': meth, 'nth': nth, 'fired': count['n'] >= nth})
+            res.stats.hit('handler_fault_' + ('fired' if count['n'] >= nth else 'not_reached'))
 
 
 def replay_witness(wit, driver):
